@@ -86,7 +86,9 @@ Inductive expr :=
 | EAs (line : nat) (e : expr) (t : ty)    (* e.(T): the panicking form *)
 | EAsOk (e : expr) (t : ty)               (* v, _ := e.(T) *)
 | EPath (e : expr) (ks : list string)     (* jp.ParseString("k1.k2").Get(e), as a list *)
-| EDel (e : expr) (k : string).           (* the map after delete(m, "k") *)
+| EDel (e : expr) (k : string)            (* the map after delete(m, "k") *)
+| EStr (s : string)                       (* a string constant assigned to an interface{} variable *)
+| EIdx (line : nat) (e : expr) (n : nat). (* e[n], e of static type []interface{}: panics when len(e) <= n *)
 
 Inductive stmt :=
 | SSkip
@@ -123,6 +125,14 @@ Fixpoint eval (e : expr) (r : env) : res jv :=
       match v with
       | VObj o => Ok (VObj (remove_key k o))
       | VNull => Ok VNull
+      | _ => Panic 0
+      end
+  | EStr s => Ok (VStr (Some s))
+  | EIdx line e' n =>
+      let* v := eval e' r in
+      match v with
+      | VArr l => match nth_error l n with Some v' => Ok v' | None => Panic line end
+      | VNull => Panic line                   (* index of a nil slice *)
       | _ => Panic 0
       end
   end.
@@ -193,7 +203,8 @@ Inductive shape :=
 | ShStrTag (s : string)
 | ShArr (e : shape)
 | ShObj (fs : list (string * shape)) (rest : option shape)   (* listed keys (absent = null); other keys: rest, or none *)
-| ShOpt (s : shape).                                         (* null, or s *)
+| ShOpt (s : shape)                                          (* null, or s *)
+| ShArr1 (e : shape).                                        (* an array with at least one element *)
 
 Fixpoint conforms (s : shape) (v : jv) {struct s} : bool :=
   match s with
@@ -217,6 +228,7 @@ Fixpoint conforms (s : shape) (v : jv) {struct s} : bool :=
       | _ => false
       end
   | ShOpt s' => is_null v || conforms s' v
+  | ShArr1 e => match v with VArr (v0 :: l) => conforms e v0 && forallb (conforms e) l | _ => false end
   end.
 
 Definition aenv := list (string * shape).
@@ -224,7 +236,7 @@ Definition aenv := list (string * shape).
 Definition sure_ty (t : ty) (s : shape) : bool :=
   match t, s with
   | TyBool, ShBool | TyNum, ShNum | TyNum, ShNumTag _ | TyStr, ShStr | TyStr, ShStrTag _
-  | TyArr, ShArr _ | TyObj, ShObj _ _ => true
+  | TyArr, ShArr _ | TyArr, ShArr1 _ | TyObj, ShObj _ _ => true
   | _, _ => false
   end.
 
@@ -241,6 +253,20 @@ Definition zero_sh (t : ty) : shape :=
   | TyNum => ShNumTag 0%Z
   | TyStr => ShStrTag ""
   | TyArr | TyObj => ShNull
+  end.
+
+(* what is known about a value of shape s once it is known to have type t *)
+Definition refine_ty (t : ty) (s : shape) : shape :=
+  match s with
+  | ShOpt s' => if sure_ty t s' then s' else s
+  | ShAny => match t with
+             | TyArr => ShArr ShAny
+             | TyStr => ShStr
+             | TyNum => ShNum
+             | TyBool => ShBool
+             | TyObj => ShAny                (* the keys of an arbitrary object are not known to be distinct *)
+             end
+  | _ => s
   end.
 
 Definition strip (s : shape) : shape := match s with ShOpt s' => s' | _ => s end.
@@ -298,7 +324,11 @@ Fixpoint aeval (e : expr) (G : aenv) : option shape :=
       | Some s => if sure_ty t s then Some s
                   else if never_ty t s then Some (zero_sh t)
                   else match t, s with
-                       | TyArr, ShOpt (ShArr _) | TyObj, ShOpt (ShObj _ _) => Some s
+                       | TyArr, ShOpt (ShArr _) | TyArr, ShOpt (ShArr1 _) | TyObj, ShOpt (ShObj _ _) => Some s
+                       | TyArr, ShAny => Some (ShOpt (ShArr ShAny))
+                       | TyStr, ShAny => Some ShStr
+                       | TyNum, ShAny => Some ShNum
+                       | TyBool, ShAny => Some ShBool
                        | _, _ => Some ShAny
                        end
       | None => None
@@ -308,6 +338,12 @@ Fixpoint aeval (e : expr) (G : aenv) : option shape :=
       match aeval e' G with
       | Some (ShObj fs rest) => Some (ShObj ((k, ShNull) :: remove_key k fs) rest)
       | Some ShNull => Some ShNull
+      | _ => None
+      end
+  | EStr s => Some (ShStrTag s)
+  | EIdx _ e' n =>
+      match aeval e' G with
+      | Some (ShArr1 el) => match n with O => Some el | S _ => None end
       | _ => None
       end
   end.
@@ -329,7 +365,7 @@ Definition refine_nonnil (e : expr) (G : aenv) : aenv :=
 
 Definition arr_elem (s : shape) : option (option shape) :=   (* Some None: surely nil/empty *)
   match s with
-  | ShArr e | ShOpt (ShArr e) => Some (Some e)
+  | ShArr e | ShOpt (ShArr e) | ShArr1 e | ShOpt (ShArr1 e) => Some (Some e)
   | ShNull => Some None
   | _ => None
   end.
@@ -358,7 +394,7 @@ Fixpoint check (s : stmt) (G : aenv) : bool :=
       | Some sh =>
           if sure_ty t sh then check a ((x, sh) :: G)
           else if never_ty t sh then check b ((x, zero_sh t) :: G)
-          else check a ((x, match sh with ShOpt s' => if sure_ty t s' then s' else sh | _ => sh end) :: G)
+          else check a ((x, refine_ty t sh) :: G)
                && check b ((x, zero_sh t) :: G)
       | None => false
       end
